@@ -1,5 +1,6 @@
 SPECIFICATION Spec
 CONSTANTS
+  Pre <- NoPre
   FailingGov = FALSE
   MaxHeight = 3
   MaxTx = 6
